@@ -167,7 +167,10 @@ class Sem:
                 if isinstance(te, ast.Name) and te.id == name:
                     return elem(sq, idx_expr)
             return None
-        if seqs is None and not (isinstance(inner_it, ast.Call) and call_name(inner_it) not in ("list", "tuple", "sorted")):
+        # a plain `for v in X` is rewritten to X[i] only when X is visibly a sequence (an element of something, a literal list or
+        # a comprehension) or the index is known (enumerate); iterating a bare name/attribute may be a dict → keep the variable
+        seq_like = isinstance(inner_it, (ast.Subscript, ast.List, ast.Tuple, ast.ListComp)) or idx_expr is not None and not idx_expr.id.startswith("IT")
+        if seqs is None and seq_like and not isinstance(inner_it, ast.Call):
             if isinstance(inner_t, ast.Name) and inner_t.id == name:
                 return elem(inner_it, idx_expr)
             if isinstance(inner_t, ast.Tuple):
